@@ -24,6 +24,8 @@ structure MNode where
   dirty : Bool
   shared : Bool
   owner : Nat          -- ghost
+  /-- `source`: the name this object was decoded from / committed as (`none` = nil) -/
+  source : Option Nat := none
   deriving Repr, DecidableEq
 
 /-- objects by address; allocation appends -/
